@@ -70,7 +70,7 @@ fn items_of(cs: &CallSet) -> Vec<Item> {
         .map(|r| Item::Rec {
             contig: format!("chr{}", r.contig + 1),
             pos: r.pos as usize,
-            g: r.gts.iter().map(|g| gt_to_g(g)).collect(),
+            g: r.gts.iter().map(|g| if r.no_gt { G_MISSING } else { gt_to_g(g) }).collect(),
         })
         .collect()
 }
@@ -190,6 +190,7 @@ impl Prop for C10 {
         let big = tier == Tier::Thorough && rng.chance(1, 40) && !l2;
         let mut p = CallSetParams::standard(if big { 40 } else { 12 }, if l2 { 12 } else if big { 3000 } else { 40 });
         p.allow_strict = false;
+        p.allow_no_gt = true;
         let (mut callset, mut cfg) = gen::gen_callset(&mut rng, &p);
         if callset.recs.is_empty() {
             let s = callset.samples.clone();
@@ -512,6 +513,10 @@ fn build_l2_input(case: &Case, i: usize) -> Option<(Vec<u8>, Option<Plan>)> {
     let (sel, unsel) = selected(cs, &case.cfg);
     let mut cs2 = cs.clone();
     let mut lines_override: Option<(usize, String)> = None;
+    if matches!(case.fault, Fault::PloidySelected | Fault::PloidyUnselected | Fault::StrictViolation) {
+        // the fault is carried by a GT value: the record must have a GT key
+        cs2.recs[i].no_gt = false;
+    }
     match case.fault {
         Fault::PloidySelected => {
             let who = *sel.get(i % sel.len().max(1))?;
